@@ -48,7 +48,7 @@ def items(tier, seed):
             out.append(Item("C05", "sym_network", dict(L=L, B=B, default_prefixes=False), budget_s=600, obligation="H2H3-every-network-of-a-length"))
     out.append(Item("C05", "sym_network", dict(L=12, B=8, default_prefixes=True), budget_s=900, obligation="H2H3-every-network-of-a-length"))
     # ... next to fixed preserved networks (nested inside / containing / disjoint from the symbolic one), both list orders
-    for L, others in ((24, ["172.16.0.0/12", "9.9.9.9/32"]), (8, ["10.20.0.0/16", "200.1.2.0/24"])) if tier == "quick" else \
+    for L, others in ((24, ["172.16.0.0/12"]),) if tier == "quick" else \
             ((24, ["172.16.0.0/12", "9.9.9.9/32"]), (8, ["10.20.0.0/16", "200.1.2.0/24"]), (16, ["10.0.0.0/8", "172.16.0.0/12", "192.168.0.0/16"]), (30, ["200.1.2.128/25", "200.1.2.192/26"]),
              (12, ["172.16.5.0/24"]), (32, ["8.8.8.0/24"])):
         for first in (True, False):
